@@ -28,6 +28,10 @@ def obligations(tier):
             nf = max(3, w + 1)
             obs.append(Ob(f"{spec_name((kind, name, kw))}/fill-gap/n={nf}", dict(spec=[kind, name, kw], n=nf, mode="fill"), cfg,
                           weight=nf * (20 if name in EXTRA else 1), budget_s=900 if tier == "quick" else 7200, max_paths=200000))
+    for name, kw, w, extra in CONFIG_VARIANTS:
+        n = w + 1 + EXTRA.get(name, 3)
+        obs.append(Ob(f"cfg:{spec_name(('ind', name, kw))}{extra}/batch/n={n}", dict(spec=["ind", name, kw], n=n, mode="batch", extra=extra), TOT, weight=n * 5, budget_s=300, max_paths=200000))
+        obs.append(Ob(f"cfg:{spec_name(('ind', name, kw))}{extra}/fill-gap/n={max(3, w + 1)}", dict(spec=["ind", name, kw], n=max(3, w + 1), mode="fill", extra=extra), TOT, weight=n * 5, budget_s=300, max_paths=200000))
     # floating-point lemma for the one kernel whose DOMAIN depends on the sign of a cancelling sum (sqrt of the running
     # variance): every arithmetic result carries the standard relative error, and sqrt forks on a negative argument
     for name, kw in ((("STDEV", dict(period=2)), ("STDEV", dict(period=3)), ("BBANDS", dict(period=2)), ("STDEVTHRES", dict(period=2))) if tier == "thorough" else ()):
@@ -104,7 +108,7 @@ def run(ctx, P):
     n = P["n"]
     if P["mode"] == "batch":
         cs = mk_candles(ctx, n)
-        ind = build_any(spec, candles=cs)
+        ind = build_any(spec, candles=cs, **(P.get("extra") or {}))
         ind.calculate()
     else:
         # two real candles, a gap of two buckets (filled by the manager with flat zero-volume candles), then the rest
@@ -114,7 +118,7 @@ def run(ctx, P):
             o, h, l, c, v = sym_ohlcv(ctx, i)
             minute = i + 1 if i < 2 else i + 3
             cs.append(Candle(o, h, l, c, v, timestamp=ctx.const_time(GRID0 + 60 * minute)))
-        ind = build_any(spec, candles=[], timeframe="T1", timeframe_fill=True)
+        ind = build_any(spec, candles=[], timeframe="T1", timeframe_fill=True, **(P.get("extra") or {}))
         for c in cs:
             ind.append(c)
         ctx.require("gap-was-filled", len(ind.candles) == n + 2)
